@@ -2,7 +2,6 @@ package main
 
 import "math/rand"
 
-func caseC04(r *rand.Rand, cw *CalcWriter, label string, maxT int) {}
 func caseC16(r *rand.Rand, cw *CalcWriter, label string, maxT int) {}
 
-func replayCalcExtra2(cw *CalcWriter, c *calcCase, label string, k int) {}
+func replayCalcExtra3(cw *CalcWriter, c *calcCase, label string, k int) {}
